@@ -54,6 +54,44 @@ CHECKS = {
         "byte-identical.",
         note="As C04.",
         design="DESIGN.md section 3 C08, section 2 E1"),
+    "C10": dict(
+        engine="wseq",
+        technique="exhaustive enumeration of all write_example call "
+        "sequences up to a depth on the real filler (bounded model checking "
+        "of the shard roll-over logic) + session-history BFS",
+        text="Every sequence of write_example calls over (split x "
+        "valid/rejected x metadata absent/A/B/shared-mutated dict) up to "
+        "depth 3-5 (quick) / 4-7 (thorough), examples_per_shard 1..3, "
+        "fb/npz/tfrec; oracle on the decoded files: 1<=size<=eps and all "
+        "but the last shard full unless the metadata changed.",
+        note="Lenient reading of 'as long as the metadata does not change' "
+        "(two distinct requested values in the window).",
+        design="DESIGN.md section 3 C10"),
+    "C11": dict(
+        engine="wseq",
+        technique="exhaustive enumeration of all write_example call "
+        "sequences up to a depth on the real filler, metadata argument "
+        "incl. an aliased dict mutated in place",
+        text="Every sequence up to depth 3-5 (quick) / 4-6 (thorough) with "
+        "the metadata argument absent, empty, fresh A/B, or one shared dict "
+        "mutated before each call and after the last write; every labelled "
+        "example must lie in a shard recorded with the value at call time "
+        "and shard_filter on that value must return all and only them.",
+        note="Examples written without metadata are unconstrained.",
+        design="DESIGN.md section 3 C11"),
+    "C18": dict(
+        engine="wseq",
+        technique="exhaustive enumeration of write_example call sequences "
+        "over 16 kinds of (in)valid call x metadata, all formats, plus a "
+        "complete declaration grid (dtype x shape x format)",
+        text="All sequences up to depth 2-3 (quick) / 2-4 (thorough): shape "
+        "violations must raise, valid calls must be accepted, raising calls "
+        "leave no trace (content, counts, stray files, later calls), "
+        "accepted calls keep every reader of the format working; 126 "
+        "declarations (accepted => decodable).",
+        note="Known findings: fb with dtype str/bytes and tfrec with float64 "
+        "are accepted but undecodable (known_findings.json).",
+        design="DESIGN.md section 3 C18"),
 }
 
 NOT_YET = "check not built yet in this session (planned, see DESIGN.md section 3)"
@@ -107,6 +145,10 @@ def main() -> None:
              "kind_free_text": "BFS over operation histories of the real "
                                "writer with state caching and a reference "
                                "model"},
+            {"name": "wseq", "path": "vf/wseq.py",
+             "serves_properties": ["C10", "C11", "C18"],
+             "kind_free_text": "all write_example sequences inside one "
+                               "filler context, oracles on decoded files"},
             {"name": "sched", "path": "vf/sched.py + vf/lazypool_mc.py",
              "serves_properties": ["C13", "C14", "C02", "C07"],
              "kind_free_text": "cooperative scheduler + choice-sequence DFS "
